@@ -60,6 +60,17 @@ class AsyncSpec(object):
             return [(st, ('val', NONE))]
         return None
 
+    def mutate(self, ex, st, target, how, args, node):
+        # any in-place mutation of the protected list object (through whatever alias) must happen under the lock
+        if st.entails(target == st.rd(self.selfv, BUF)):
+            ex.obligations.append(('buffer_touched_only_under_lock', st.copy(), z3.BoolVal(bool(st.g['lock_held'])), ('normal',)))
+            if how == 'clear':
+                st.set_seq(target, E); return [(st, ('normal',))]
+        return None
+
+    def to_list(self, ex, st, v, node):
+        return None
+
     def with_object(self, ex, st, cm, n):
         if not ex.is_kind(st, cm, 'Lock'):
             return None
